@@ -14,7 +14,7 @@ import z3
 
 from symx import harness, load, rotation, stubs, smt
 from symx.arrays import SymArray, to_symarray, _obj
-from symx.core import Sym, explore, integer, lift, real, _real, _coerce
+from symx.core import Unsupported, Sym, explore, integer, lift, real, _real, _coerce
 from symx.daskstub import DaskArrayStub, EmptyMean
 from symx.plshim import PlShim
 
@@ -50,6 +50,34 @@ class RngStub:
             cur().assume(z3.And(v.e >= 0, v.e < len(a)))
             out.append(v)
         return _Picks(out, a)
+
+
+    # -- other ways a splitter may draw its indices: an arbitrary permutation (all indices distinct), concretised one path per outcome
+    def permutation(self, x):
+        import operator
+        from symx.core import cur
+
+        items = list(range(int(x))) if isinstance(x, (int, np.integer)) else list(np.asarray(x).tolist())
+        n = len(items)
+        vs = []
+        for _ in range(n):
+            v = integer(f"perm_s{self.seed}_{self.n}")
+            self.n += 1
+            cur().assume(z3.And(v.e >= 0, v.e < n))
+            vs.append(v)
+        if n > 1:
+            cur().assume(z3.Distinct(*[v.e for v in vs]))
+        return np.array([items[operator.index(v)] for v in vs])
+
+    def shuffle(self, x):
+        x[:] = self.permutation(list(x))
+
+    def integers(self, low, high=None, size=None, **kw):
+        lo, hi = (0, low) if high is None else (low, high)
+        return self.choice(np.arange(lo, hi), size)
+
+    def random(self, size=None):
+        raise Unsupported("RngStub.random (continuous draws) is not modelled")
 
 
 class _Picks:
